@@ -288,6 +288,19 @@ PROPS = {    "C01": {
         "assumptions": ["distinct step names", "map iteration in insertion order (results do not depend on order for distinct names)"],
         "outside_claim": COMMON_OUTSIDE + ["random graphs of up to 40 steps (sampling; not this technique)"],
     },
+    "C16": {
+        "obligations": [
+            {"name": "C16.refuse", "pkg": "./internal/agent", "replay": "R1",
+             "must_assert": ["C16.refuse/second-start-is-refused-while-a-run-is-active", "C16.refuse/hung-peer-is-not-overrun", "C16.refuse/start-proceeds-when-no-run-is-active"],
+             "quick": {"entry": "VerifHarness_C16_refuse", "sample_paths": 2,
+                       "flags": ["-unwind", "32", "-concrete-clock", "-stub", "(*@/internal/sock.Client).Request=sock-request", "-stub", "@/internal/persistence/model.StatusFromJSON=json-lookup"],
+                       "bounds": {"socket": "no listener | first run answers (status running/failed/canceled/finished) | peer hangs", "steps": 1, "handlers": "onExit"}}},
+        ],
+        "assumptions": ["the real agent.Run and client.GetCurrentStatus run over the socket model ((*sock.Client).Request summarised: dial failure / registered payload / timeout)",
+                        "history store is a recording fake whose Open ends the accepting path once it has been reached"],
+        "outside_claim": COMMON_OUTSIDE + ["two starts issued at the same moment (C16.race: probe -> history open -> unlink+bind is not atomic; needs the two-agent SOCK world, not built: anticipated finding F16 is therefore undecided)",
+                                           "that the active run's socket keeps answering and its history stays intact during the refused start beyond 'no history call is made'", "retry of the same file"],
+    },
     "C17": {
         "obligations": [
             {"name": "C17.chain", "pkg": "./internal/frontend/middleware", "replay": "R1",
